@@ -26,13 +26,16 @@ class QueueCheck:
         s.one_buffer = params.get('one_buffer', False)
         s.process = params.get('process')            # None | chunk size: the messages are streamed through process::<pn>
         s.pn = params.get('pn', 64)
+        s.kinds = params.get('kinds') or OPS
+        s.exact = params.get('exact_depth', False)
         s.twin = params.get('twin', False)
         s.t1 = world.devices[s.dev]['cmds'][0]['cmd'] == 'A:B'
 
     def body(s):
         ex, w = s.ex, s.w
-        n_ops = ex.decide([(i, True) for i in range(1, s.depth + 1)]) if s.depth > 1 else 1
-        ops = [OPS[ex.decide([(i, True) for i in range(len(OPS))])] for _ in range(n_ops)]
+        n_ops = s.depth if s.exact else (ex.decide([(i, True) for i in range(1, s.depth + 1)]) if s.depth > 1 else 1)
+        kinds = s.kinds
+        ops = [kinds[ex.decide([(i, True) for i in range(len(kinds))])] for _ in range(n_ops)]
         s.ops = ops
         valid = b':X\n' if s.t1 else b'*RST\n'
         custom_cmd = b':A:B\n' if s.t1 else b'ABC:DEF\n'
